@@ -39,7 +39,7 @@ CLAIMED['C13'] = {
     'text': 'Static: field coverage of the Serialize/Deserialize impls of Tds, Cell, Vertex and Point against their ADT '
             'field lists (a field that is neither written nor in the reasoned skip table is reported by name), writer '
             'names = reader names, no persisted field of a parsed element is overwritten with a value not derived from the '
-            'input before it is stored, and must-pass-through: every Ok exit of the Tds deserialiser lies behind the '
+            'input before it is stored, the coordinate writer replaces a value by a sentinel only on a non-finite edge, and must-pass-through: every Ok exit of the Tds deserialiser lies behind the '
             'success edges of the neighbour / incident-cell rebuild and of a call covering all Level-2 and Level-1 '
             'validators. Decides the "nothing silently dropped" and "inconsistent input is rejected" clauses, not '
             'round-trip equality.',
@@ -69,7 +69,8 @@ CLAIMED['C19'] = {
             'sites per function against a classified table, a ban on keyed slot-map indexing, and a call-graph fixed '
             'point showing that a caller-supplied vertex passes a finiteness validation before it can reach storage '
             '(constructors and k=1 flips are reasoned table entries); helpers that assert hull freshness are called only '
-            'behind the typed staleness check. Decides "no unbounded loop / recursion, no new '
+            'behind the typed staleness check; checked integer arithmetic (overflow / division asserts on non-usize integers, '
+            'usize subtraction) per function matches a classified table. Decides "no unbounded loop / recursion, no new '
             'panic site, non-finite input gated"; not complexity, stack depth or arithmetic asserts.',
     'note': 'Trusted: rustc MIR; finiteness of std/slotmap/smallvec iterators; the LOOP / PANIC / FINITE tables in '
             'engine/rules/c19.py (each entry with a reason). Idiom classifiers: an unrecognised but correct new loop or '
